@@ -374,6 +374,31 @@ func iteVal(c *Term, a, b *Val) *Val {
 }
 
 func eqVal(a, b *Val) *Term {
+	// interior pointers (into a slice element or a struct field): equal iff
+	// they name the same location
+	if a.L == nil && b.L == nil && a.Ptr != nil && b.Ptr != nil && !(a.Ptr.isRoot() && b.Ptr.isRoot()) {
+		pa, pb := a.Ptr, b.Ptr
+		if pa.Cell != nil || pb.Cell != nil {
+			if pa.Cell == pb.Cell && pa.Lo == pb.Lo && pa.Hi == pb.Hi && len(pa.Idx) == 0 && len(pb.Idx) == 0 {
+				return True
+			}
+			unsup("comparison of pointers to local variables")
+		}
+		if pa.Elem != pb.Elem || pa.Lo != pb.Lo || pa.Hi != pb.Hi || len(pa.Idx) != len(pb.Idx) || typeKey(pa.RType) != typeKey(pb.RType) {
+			return False
+		}
+		cs := []*Term{Eq(pa.Root, pb.Root)}
+		if pa.Elem {
+			if pa.EIdx == nil || pb.EIdx == nil {
+				unsup("comparison of element pointers without an index")
+			}
+			cs = append(cs, Eq(pa.EIdx, pb.EIdx))
+		}
+		for i := range pa.Idx {
+			cs = append(cs, Eq(pa.Idx[i], pb.Idx[i]))
+		}
+		return And(cs...)
+	}
 	la, lb := a.leaves(), b.leaves()
 	if len(la) != len(lb) {
 		panic("eqVal: leaf count mismatch")
